@@ -96,42 +96,42 @@ def run(model, rep):
     mf = A.facts[A.main.qual]
     mdefs = A.defs[A.main.qual]
     n_w = 0
-    for fi in [f for f in model.funcs.values() if f.module == MAIN]:
-        if fi.qual not in A.facts:
-            A.facts[fi.qual] = Facts(fi.node)
-            A.defs[fi.qual] = local_defs(fi.node)
-        FF = A.facts[fi.qual]
+    sinks = A.lifted_sinks()
+    for (fi, c, path, mode, facts) in A.lifted_opens():
         fdefs = A.defs[fi.qual]
-        for (c, path, mode, alias) in A.open_calls(fi):
-            facts = FF.facts_at(c)
-            if facts is None:
-                continue
-            if mode is None:
-                rep.violation('C15.WRT', fi.loc(c), src(c), 'open() with a computed mode cannot be classified', key='C15.WRT|mode|' + src(c))
-                continue
-            if not any(ch in mode for ch in 'wax+'):
-                continue
-            n_w += 1
-            ptxt = src(path)
-            key = 'C15.WRT|%s|%s|%s' % (fi.name, ptxt, 'handler' if any(k.startswith('<caught:') for k, _ in facts) else 'main')
-            if ptxt.endswith('.output') and isinstance(path, ast.Attribute):
-                ok = (ptxt, True) in facts
-                rep.check(ok, 'C15.WRT', fi.loc(c), src(c), 'the --output path, under the fact that it was given', 'the --output path is opened without testing that it was given', key=key)
-                continue
-            pdefs = fdefs.get(path.id, []) if isinstance(path, ast.Name) else []
-            from_walk = bool(pdefs) and all(isinstance(d, tuple) and d[0] == '<iter>' and isinstance(d[1], ast.Call) and isinstance(d[1].func, ast.Name)
-                                             and model.resolve_name(MAIN, d[1].func.id) == A.source_modules.qual for d in pdefs)
-            if not from_walk:
-                rep.violation('C15.WRT', fi.loc(c), src(c), 'file opened for writing is neither a selected source path nor the --output path', key=key)
-                continue
-            inplace = any(p and k.endswith('.in_place') for (k, p) in facts if not k.startswith('<'))
-            rep.check(inplace, 'C15.WRT', fi.loc(c), src(c), 'selected source path, under the in-place fact', 'a source file is overwritten without --in-place', key=key)
-            dom = ('<did:do_minify>', True) in facts and not any(k.startswith('<caught:') for k, _ in facts)
-            rd = ('<did:f.read>', True) in facts or any(k.startswith('<did:') and k.endswith('.read>') for k, _ in facts)
-            in_try = any(k.startswith('<in-try:') for k, _ in facts)
-            rep.check(dom and rd and not in_try, 'C15.ORD', fi.loc(c), src(c), 'dominated by the read and by a completed do_minify(); outside the try',
-                      'the destination can be opened (truncated) before minification of that file has succeeded', key='C15.ORD|' + ptxt)
-    rep.floor('C15.WRT', 5, n_w)
+        if mode is None:
+            rep.violation('C15.WRT', fi.loc(c), src(c), 'open() with a computed mode cannot be classified', key='C15.WRT|mode|' + src(c))
+            continue
+        if not any(ch in mode for ch in 'wax+'):
+            continue
+        if isinstance(path, ast.Constant) and path.value is None:
+            rep.note('open(None, %r) at %s: a helper arm that cannot succeed for this call (no path)' % (mode, fi.loc(c)))
+            continue
+        n_w += 1
+        ptxt = src(path)
+        key = 'C15.WRT|%s|%s|%s' % (fi.name, ptxt, 'handler' if any(k.startswith('<caught:') for k, _ in facts) else 'main')
+        if ptxt.endswith('.output') and isinstance(path, ast.Attribute):
+            ok = (ptxt, True) in facts
+            rep.check(ok, 'C15.WRT', fi.loc(c), 'open(%s, %r)' % (ptxt, mode), 'the --output path, under the fact that it was given', 'the --output path is opened without testing that it was given', key=key)
+            continue
+        pdefs = fdefs.get(path.id, []) if isinstance(path, ast.Name) else []
+        from_walk = bool(pdefs) and all(isinstance(d, tuple) and d[0] == '<iter>' and isinstance(d[1], ast.Call) and isinstance(d[1].func, ast.Name)
+                                         and model.resolve_name(MAIN, d[1].func.id) == A.source_modules.qual for d in pdefs)
+        if not from_walk:
+            rep.violation('C15.WRT', fi.loc(c), 'open(%s, %r)' % (ptxt, mode), 'file opened for writing is neither a selected source path nor the --output path', key=key)
+            continue
+        inplace = any(p and k.endswith('.in_place') for (k, p) in facts if not k.startswith('<'))
+        rep.check(inplace, 'C15.WRT', fi.loc(c), 'open(%s, %r)' % (ptxt, mode), 'selected source path, under the in-place fact', 'a source file is overwritten without --in-place', key=key)
+        dom = ('<did:do_minify>', True) in facts and not any(k.startswith('<caught:') for k, _ in facts)
+        if not dom:
+            # alternatively: what is written through this open is, on every path, a completed do_minify result of this iteration
+            written = [sk for sk in sinks if sk.func is fi and sk.call is c and sk.target is not None and src(sk.target) == ptxt]
+            dom = bool(written) and all(A.judge_sink(sk)[0] is True and A.judge_sink(sk)[1] == 'minified' for sk in written)
+        rd = any(k.startswith('<did:') and k.endswith('.read>') for k, _ in facts)
+        in_try = any(k.startswith('<in-try:') for k, _ in facts)
+        rep.check(dom and rd and not in_try, 'C15.ORD', fi.loc(c), 'open(%s, %r)' % (ptxt, mode), 'dominated by the read and by a completed do_minify(); outside the try',
+                  'the destination can be opened (truncated) before minification of that file has succeeded', key='C15.ORD|' + ptxt)
+    rep.floor('C15.WRT', 2, n_w)
     rep.floor('C15.ORD', 1)
     # other file-system mutations anywhere in the package
     n_mut = 0
